@@ -864,7 +864,9 @@ def _extract_plane_params(structure) -> Tuple[
     if isinstance(structure, SICDType):
         # reference point for the plane
         ref_point = structure.GeoData.SCP.ECF.get_array()
-        ref_pixel = structure.ImageData.SCPPixel.get_array()
+        # pixel coordinates are relative to this image, which may be a chip of the full image
+        ref_pixel = structure.ImageData.SCPPixel.get_array(dtype='float64') - numpy.array(
+            [structure.ImageData.FirstRow, structure.ImageData.FirstCol], dtype='float64')
 
         # pixel spacing
         row_ss = structure.Grid.Row.SS
